@@ -4,6 +4,10 @@ import Pog.Drv.Http
 import Pog.Drv.Stream
 import Pog.Drv.Registry
 import Pog.Drv.Ops
+import Pog.Drv.Imports
+import Pog.Drv.Plan
+import Pog.Drv.Surface
+import Pog.Drv.Sinks
 /-
   Line protocol: one JSON request per line on stdin, one JSON reply per line on stdout.
     request  {"f": <function>, "a": [<args>], "u": {<codepoint>: {"w":bool,"d":bool,"l":str,"U":str,"iu":bool}}}
@@ -18,7 +22,11 @@ def dispatchers : List Dispatch := [
   dispatchHttp,
   dispatchStream,
   dispatchRegistry,
-  dispatchOps
+  dispatchOps,
+  dispatchImports,
+  dispatchPlan,
+  dispatchSurface,
+  dispatchSinks
 ]
 
 def dispatch (f : String) (a : Array Json) (u : UInfo) : Except String Json :=
